@@ -287,7 +287,13 @@ fn verify_signatures(
     }
 
     for (i, signer) in signers.iter().enumerate() {
-        let verification_result = verify_single_signature(signer, &data_to_verify);
+        // `signers` was built from `signer_infos` in order
+        let verification_result = cms_signed_data
+            .signer_infos
+            .0
+            .get(i)
+            .ok_or_else(|| ProtocolError::Parse("Signer index out of range".to_string()))
+            .and_then(|cms_signer| verify_single_signature(signer, cms_signer, &data_to_verify));
 
         match verification_result {
             Ok(valid) => {
@@ -383,7 +389,16 @@ fn extract_octet_string_content(der_bytes: &[u8]) -> Result<Vec<u8>> {
 }
 
 /// Verify a single signature
-fn verify_single_signature(signer: &SignerInfo, data: &[u8]) -> Result<bool> {
+///
+/// Without signed attributes the signature covers the content itself. With signed
+/// attributes (RFC 5652 section 5.4) the `messageDigest` attribute must be the digest
+/// of the content and the signature covers the DER encoding of the attributes as a
+/// `SET OF`.
+fn verify_single_signature(
+    signer: &SignerInfo,
+    cms_signer: &CmsSignerInfo,
+    data: &[u8],
+) -> Result<bool> {
     // Get the certificate and public key
     let cert = signer.certificate.as_ref().ok_or_else(|| {
         ProtocolError::Parse("No certificate available for signature verification".to_string())
@@ -393,13 +408,66 @@ fn verify_single_signature(signer: &SignerInfo, data: &[u8]) -> Result<bool> {
         ProtocolError::Parse("No public key available in certificate".to_string())
     })?;
 
-    // For RSA signatures, verify using the appropriate digest algorithm
+    let Some(signed_attrs) = &cms_signer.signed_attrs else {
+        // For RSA signatures, verify using the appropriate digest algorithm
+        return verify_rsa_signature(
+            public_key,
+            data,
+            &signer.signature,
+            &signer.digest_algorithm,
+        );
+    };
+
+    let content_digest = compute_digest(&signer.digest_algorithm, data)?;
+    if find_message_digest(signed_attrs)? != content_digest {
+        debug!("messageDigest attribute does not match the content");
+        return Ok(false);
+    }
+
+    // `SignedAttributes` encodes with the universal SET tag, which is what was signed
+    let attrs_der = signed_attrs
+        .to_der()
+        .map_err(|e| ProtocolError::Parse(format!("Failed to encode signed attributes: {e}")))?;
+
     verify_rsa_signature(
         public_key,
-        data,
+        &attrs_der,
         &signer.signature,
         &signer.digest_algorithm,
     )
+}
+
+/// Digest of `data` with the named algorithm
+fn compute_digest(digest_algorithm: &str, data: &[u8]) -> Result<Vec<u8>> {
+    use sha2::Digest;
+
+    match digest_algorithm {
+        "SHA-256" => Ok(Sha256::digest(data).to_vec()),
+        "SHA-384" => Ok(Sha384::digest(data).to_vec()),
+        "SHA-512" => Ok(Sha512::digest(data).to_vec()),
+        _ => Err(ProtocolError::Parse(format!(
+            "Unsupported digest algorithm: {digest_algorithm}"
+        ))),
+    }
+}
+
+/// Value of the `messageDigest` signed attribute (OID 1.2.840.113549.1.9.4)
+fn find_message_digest(signed_attrs: &cms::signed_data::SignedAttributes) -> Result<Vec<u8>> {
+    for attr in signed_attrs.iter() {
+        if attr.oid.to_string() == "1.2.840.113549.1.9.4" {
+            let value = attr.values.iter().next().ok_or_else(|| {
+                ProtocolError::Parse("messageDigest attribute has no value".to_string())
+            })?;
+            let octets = value
+                .decode_as::<der::asn1::OctetString>()
+                .map_err(|e| ProtocolError::Parse(format!("Invalid messageDigest attribute: {e}")))?;
+            return Ok(octets.as_bytes().to_vec());
+        }
+    }
+
+    Err(ProtocolError::Parse(
+        "Signed attributes have no messageDigest".to_string(),
+    ))
 }
 
 /// Verify RSA signature with specified digest algorithm
